@@ -816,6 +816,7 @@ pub trait Parser<T> {
             self.rel(*old(args), r, *final(args)), // #refines_rel
             step(*old(args), *final(args)), // #step
     ;
+    fn meta(&self) -> Meta;
 }
 
 //@@ fn src/structs.rs | fn parse_option
@@ -844,7 +845,7 @@ pub trait Parser<T> {
     open spec fn rel(&self, pre: State, r: Result<Option<T>, Error>, post: State) -> bool {
         exists|l: usize| #[trigger] opt_rel(self.inner, pre, usize::MAX, self.catch, r, post, l)
     }
-//@@ drop fn meta
+//@@ also fn meta
 //@@ end
 
 //@@ type src/structs.rs | struct ParseGuard
@@ -866,7 +867,7 @@ pub trait Parser<T> {
             Err(e) => r == Err::<T, Error>(e),
         }
     }
-//@@ drop fn meta
+//@@ also fn meta
 //@@ end
 
 //@@ type src/structs.rs | struct ParseMap
@@ -885,7 +886,7 @@ pub trait Parser<T> {
             Err(e) => r == Err::<R, Error>(e),
         }
     }
-//@@ drop fn meta
+//@@ also fn meta
 //@@ end
 
 
@@ -909,7 +910,7 @@ pub trait Parser<T> {
             Err(e) => r == Err::<R, Error>(e),
         }
     }
-//@@ drop fn meta
+//@@ also fn meta
 //@@ end
 
 //@@ type src/structs.rs | struct ParseFallback
@@ -928,7 +929,7 @@ pub trait Parser<T> {
             Err(e) => restored(pre, mid, post) && (if catchable(e.0) { r is Ok && call_ensures(T::clone, (&self.value,), r->Ok_0) } else { r == Err::<T, Error>(e) }),
         }
     }
-//@@ drop fn meta
+//@@ also fn meta external_body
 //@@ end
 
 //@@ type src/structs.rs | struct ParseFallbackWith
@@ -950,7 +951,7 @@ pub trait Parser<T> {
                 } else { r == Err::<T, Error>(e) }),
         }
     }
-//@@ drop fn meta
+//@@ also fn meta external_body
 //@@ end
 
 
@@ -966,7 +967,7 @@ pub trait Parser<T> {
     open spec fn rel(&self, pre: State, r: Result<T, Error>, post: State) -> bool {
         r is Ok && call_ensures(T::clone, (&self.0,), r->Ok_0) && post.same_but_current(pre) && post.current is None
     }
-//@@ drop fn meta
+//@@ also fn meta
 //@@ end
 
 //@@ type src/structs.rs | struct ParsePureWith
@@ -986,7 +987,7 @@ pub trait Parser<T> {
             Err(fe) => exists|s: String| call_ensures(E::to_string, (&fe,), s) && r == Err::<T, Error>(Error(Message::PureFailed(s))),
         }
     }
-//@@ drop fn meta
+//@@ also fn meta
 //@@ end
 
 //@@ type src/structs.rs | struct ParseFail
@@ -1000,7 +1001,7 @@ pub trait Parser<T> {
     open spec fn rel(&self, pre: State, r: Result<T, Error>, post: State) -> bool {
         r == Err::<T, Error>(Error(Message::ParseFail(self.field1))) && post.same_but_current(pre) && post.current is None
     }
-//@@ drop fn meta
+//@@ also fn meta
 //@@ end
 
 //@@ type src/structs.rs | struct ParseHide
@@ -1018,7 +1019,7 @@ pub trait Parser<T> {
             Err(e) => if e.0 is Missing { r is Err && r->Err_0.0 is Missing && r->Err_0.0->Missing_0@ == Seq::<MissingItem>::empty() } else { r == Err::<T, Error>(e) },
         }
     }
-//@@ drop fn meta
+//@@ also fn meta
 //@@ end
 
 //@@ type src/structs.rs | struct ParseUsage
@@ -1030,7 +1031,7 @@ pub trait Parser<T> {
 //@@ members
     open spec fn pwf(&self) -> bool { self.inner.pwf() }
     open spec fn rel(&self, pre: State, r: Result<T, Error>, post: State) -> bool { self.inner.rel(pre, r, post) }
-//@@ drop fn meta
+//@@ also fn meta external_body
 //@@ end
 
 //@@ type src/structs.rs | struct ParseGroupHelp
@@ -1042,7 +1043,7 @@ pub trait Parser<T> {
 //@@ members
     open spec fn pwf(&self) -> bool { self.inner.pwf() }
     open spec fn rel(&self, pre: State, r: Result<T, Error>, post: State) -> bool { self.inner.rel(pre, r, post) }
-//@@ drop fn meta
+//@@ also fn meta external_body
 //@@ end
 
 //@@ type src/buffer.rs | struct MetaInfo
@@ -1058,7 +1059,7 @@ pub trait Parser<T> {
 //@@ members
     open spec fn pwf(&self) -> bool { self.inner.pwf() }
     open spec fn rel(&self, pre: State, r: Result<T, Error>, post: State) -> bool { self.inner.rel(pre, r, post) }
-//@@ drop fn meta
+//@@ also fn meta external_body
 //@@ end
 
 
@@ -1083,7 +1084,6 @@ pub trait Parser<T> {
                 Err(e) => r == Err::<Vec<T>, Error>(e),
             }
     }
-//@@ drop fn meta
 //@@ insert before 1 `while let`
 let ghost mut g_args = *args; let ghost mut g_len = len; let ghost mut g_res = res@;
 //@@ loop 1
@@ -1108,6 +1108,7 @@ proof {
 }
 //@@ insert before 1 `if res.is_empty() {`
 proof { lemma_step_trans(*old(args), g_args, *args); }
+//@@ also fn meta
 //@@ end
 
 
@@ -1134,7 +1135,6 @@ proof { lemma_step_trans(*old(args), g_args, *args); }
                 Err(e) => r == Err::<usize, Error>(e),
             }
     }
-//@@ drop fn meta
 //@@ insert before 1 `while (`
 let ghost mut g_args = *args; let ghost mut g_len = len; let ghost mut g_vals = Seq::<T>::empty();
 //@@ loop 1
@@ -1161,6 +1161,7 @@ proof {
 }
 //@@ insert before 1 `Ok(res)`
 proof { lemma_step_trans(*old(args), g_args, *args); }
+//@@ also fn meta
 //@@ end
 
 
@@ -1187,7 +1188,6 @@ proof { lemma_step_trans(*old(args), g_args, *args); }
                 Err(e) => r == Err::<T, Error>(e) && post == pl,
             }
     }
-//@@ drop fn meta
 //@@ insert before 1 `while let`
 let ghost mut g_args = *args; let ghost mut g_len = len; let ghost mut g_vals = Seq::<T>::empty();
 //@@ loop 1
@@ -1214,6 +1214,7 @@ proof {
 //@@ insert before 1 `if let Some(last) = last {`
 proof { lemma_step_trans(*old(args), g_args, *args); }
 let ghost g_pl = *args;
+//@@ also fn meta
 //@@ end
 
 
@@ -1261,7 +1262,7 @@ proof { lemma_conflicts_saved(*old(args), *old(args_b), *old(args_a), win, *args
 //@@ members
     open spec fn pwf(&self) -> bool { (**self).pwf() }
     open spec fn rel(&self, pre: State, r: Result<T, Error>, post: State) -> bool { (**self).rel(pre, r, post) }
-//@@ drop fn meta
+//@@ also fn meta
 //@@ end
 
 //@@ fn src/structs.rs | impl Parser for ParseOrElse | fn eval
@@ -1281,7 +1282,7 @@ proof { lemma_conflicts_saved(*old(args), *old(args_b), *old(args_a), win, *args
                 Err(e) => r == Err::<T, Error>(e),
             }
     }
-//@@ drop fn meta
+//@@ also fn meta external_body
 //@@ end
 
 }
